@@ -90,9 +90,15 @@ def roundTrip (blocks : List (Str × List (Str × List (Str × List Str)))) : St
 
 /-! ### containers -/
 
+/-- element value: (number, encoding resolved).  A `BinaryCIFData` built in memory carries
+`ByteArrayEncoding(type=None)` until it is serialised once, and `__eq__` compares encodings: a
+fresh element is unequal to the same element read back (known finding
+`C06/container/binary/eq-unserialised-encoding`); the flag models exactly that.  Text flavour: always `true`. -/
+abbrev Val := Nat × Bool
+
 structure CState where
   kind : String := ""
-  store : Store String (Option Nat) Nat := []
+  store : Store String (Option Nat) Val := []
 
 def kindOf (s : String) : Option Kind :=
   match s with
@@ -101,49 +107,51 @@ def kindOf (s : String) : Option Kind :=
   | "bfile" | "bblock" | "bcat" => some ⟨false, true⟩
   | _ => none
 
-def decEntryVal (s : String) : Option (Entry (Option Nat) Nat) :=
+def isBinary (kind : String) : Bool := kind == "bfile" || kind == "bblock" || kind == "bcat"
+
+def decEntryVal (kind : String) (s : String) : Option (Entry (Option Nat) Val) :=
   match s.toList with
   | ['B'] => some (.raw none)
-  | 'P' :: d => (String.ofList d).toNat?.map .parsed
+  | 'P' :: d => (String.ofList d).toNat?.map (fun n => .parsed (n, !isBinary kind))
   | 'R' :: d => (String.ofList d).toNat?.map (fun n => .raw (some n))
   | _ => none
 
-def decEntries (s : String) : Option (Store String (Option Nat) Nat) :=
+def decEntries (kind : String) (s : String) : Option (Store String (Option Nat) Val) :=
   if s == "_" then some [] else
   (s.splitOn ",").mapM (fun e => match e.splitOn "=" with
-    | [k, v] => (decEntryVal v).map (fun x => (k, x))
+    | [k, v] => (decEntryVal kind v).map (fun x => (k, x))
     | _ => none)
 
-def showOut (o : Out String Nat) : String :=
+def showOut (o : Out String Val) : String :=
   match o with
   | .unit => "ok"
-  | .val v => s!"ok {v}"
+  | .val v => s!"ok {v.1}"
   | .keys ks => "ok " ++ (if ks.isEmpty then "_" else joinWith "," ks)
   | .nat n => s!"ok {n}"
   | .bool b => if b then "ok True" else "ok False"
   | .err e => showErr e
 
-def parseId (r : Option Nat) : Option Nat := r
+def parseId (r : Option Nat) : Option Val := r.map (fun n => (n, true))
 
-def isBad (e : Entry (Option Nat) Nat) : Bool := match e with | .raw none => true | _ => false
+def isBad (e : Entry (Option Nat) Val) : Bool := match e with | .raw none => true | _ => false
 
-def toRaw (e : Entry (Option Nat) Nat) : Entry (Option Nat) Nat :=
-  match e with | .parsed v => .raw (some v) | r => r
+def toRaw (e : Entry (Option Nat) Val) : Entry (Option Nat) Val :=
+  match e with | .parsed v => .raw (some v.1) | r => r
 
 def cstep (s : CState) (w : List String) : CState × String :=
   match kindOf s.kind, w with
   | _, ["cnew", k, es] =>
-    match kindOf k, decEntries es with
+    match kindOf k, decEntries k es with
     | some _, some st => ({ kind := k, store := st }, "ok")
     | _, _ => (s, "bad-op")
   | some kind, ["cget", k] => let r := step kind parseId s.store (.get k); ({ s with store := r.1 }, showOut r.2)
   | some kind, ["cset", k, v] =>
     match v.toNat? with
-    | some v => let r := step kind parseId s.store (.set k v); ({ s with store := r.1 }, showOut r.2)
+    | some v => let r := step kind parseId s.store (.set k (v, !isBinary s.kind)); ({ s with store := r.1 }, showOut r.2)
     | none => (s, "bad-op")
   | some kind, ["csetraw", k, v] =>
     if s.kind == "tcat" then (s, "unmodelled") else
-    match decEntryVal v with
+    match decEntryVal s.kind v with
     | some (.raw r) => let r := step kind parseId s.store (.setRaw k r); ({ s with store := r.1 }, showOut r.2)
     | _ => (s, "bad-op")
   | some kind, ["cdel", k] => let r := step kind parseId s.store (.del k); ({ s with store := r.1 }, showOut r.2)
@@ -151,7 +159,7 @@ def cstep (s : CState) (w : List String) : CState × String :=
   | some kind, ["citer"] => let r := step kind parseId s.store .iter; ({ s with store := r.1 }, showOut r.2)
   | some kind, ["clen"] => let r := step kind parseId s.store .len; ({ s with store := r.1 }, showOut r.2)
   | some _, ["ceq", es] =>
-    match decEntries es with
+    match decEntries s.kind es with
     | some other =>
       let r := eqContainers parseId s.store other
       ({ s with store := r.1 }, match r.2.2 with | .ok b => (if b then "ok True" else "ok False") | .error e => showErr e)
